@@ -29,6 +29,7 @@ ASSUMPTIONS = ['dense SVD (LAPACK) is the reference for singular values',
     'rounding noise of computed singular values: 1e3*eps*s_1 (SVD), '
     'eigenvalues of the Gram matrix: 1e3*eps*s_1^2 (matrix_svd)',
     'exactly zero matrices/arrays belong to C11 and are not judged here']
+COVER = ['svd.svd', 'svd.svd_matrix', 'svd.matrix_svd', 'svd.matrix_skeleton', 'transformation.full_matrix']
 SHARDS = {'quick': 12, 'thorough': 16}
 
 
